@@ -182,12 +182,22 @@ def main_for(prop, run, argv=None):
         print("replaying %s: tier=%s seed=%s facts=%s" % (args.replay, args.tier, args.seed, json.dumps(wanted, default=str)[:300]))
     ctx = Ctx(prop, args.tier, args.seed, args.replay)
     ctx.verbose = args.verbose
+    crashed = False
     try:
         run(ctx)
-    except Exception as ex:  # machinery failure
-        traceback.print_exc()
-        print("MACHINERY-FAILURE property=%s %s: %s" % (prop, type(ex).__name__, str(ex)[:2000]))
-        return 2
+    except Exception as ex:  # machinery failure ... unless it is the interpretation of one case that failed
+        from . import drive as _drive
+        if isinstance(ex, _drive.CaseError):
+            fn, item, tb = ex.args
+            last = [ln for ln in tb.strip().splitlines() if ln.strip()][-1] if tb.strip() else ""
+            print(tb)
+            ctx.violation(dict(clause="observation-crashed: what the implementation did on this case could not be interpreted", where=fn, exception=last.split(":")[0][:80]),
+                          case=dict(case=item, traceback=tb[-1500:]))
+            crashed = True
+        else:
+            traceback.print_exc()
+            print("MACHINERY-FAILURE property=%s %s: %s" % (prop, type(ex).__name__, str(ex)[:2000]))
+            return 2
     if wanted is not None:
         same = [v for v in ctx.violations if json.dumps(v["facts"], sort_keys=True, default=str) == json.dumps(wanted, sort_keys=True, default=str)]
         if same:
@@ -196,7 +206,7 @@ def main_for(prop, run, argv=None):
             return 1
         print("%s: the recorded violation did not recur on the current tree" % prop)
         return 0
-    if ctx.states < 1 or ctx.transitions < 1:
+    if (ctx.states < 1 or ctx.transitions < 1) and not crashed:
         print("MACHINERY-FAILURE property=%s no TLC states explored" % prop)
         return 2
     ev = ctx.write_evidence()
